@@ -1,7 +1,7 @@
 (** Property C02 — the scan part selects exactly the lines it denotes.
     Only statements here; proofs are in Scan/ScanProofs.v and Run/RunProofs.v. *)
 From Coq Require Import ZArith List Bool.
-From V Require Import Scan.ScanModel Scan.ScanSpec Scan.ScanProofs Run.RunLoop Run.RunProofs.
+From V Require Import Scan.ScanModel Scan.ScanSpec Scan.ScanProofs Run.RunLoop Run.RunProofs Scan.PySem Scan.ScanSrc Scan.ScanSrcEq.
 Import ListNotations.
 Open Scope Z_scope.
 
@@ -52,3 +52,22 @@ Proof.
   split; [cbn; repeat split; apply Z.ltb_lt || apply Z.leb_le; reflexivity|].
   split; [eexists; split; vm_compute; reflexivity|]. split; reflexivity.
 Qed.
+
+
+(** Scanner.includes as it is WRITTEN in csvpath/scanning/scanner.py — translated by harness/py2v.py into Scan/ScanSrc.v, under Python's
+    semantics for None, `and`, chained comparisons and `in` (Scan/PySem.v) — returns, for every scanner state and every line, exactly
+    the model's answer and never raises.  With C02_includes: the source's includes() answers `denotes` for every well-formed scan.
+    Re-checked against the source of the tree under test on every run (regenerated; re-proved when the text differs). *)
+Theorem C02_includes_source : forall (s : sc) (line : Z) (e : pyv),
+  includes_src (PInt line) (of_oz (from_line s)) (of_oz (to_line s)) (PBool (all_lines s)) (PList (these s)) e = PBool (includes s line).
+Proof. exact includes_src_eq. Qed.
+Print Assumptions C02_includes_source.
+
+Corollary C02_source_denotes : forall sh l e, wf sh ->
+  exists s, parse false (ast_of sh) = Some s /\
+    includes_src (PInt l) (of_oz (from_line s)) (of_oz (to_line s)) (PBool (all_lines s)) (PList (these s)) e = PBool (denotes sh l).
+Proof.
+  intros sh l e H. destruct (includes_denotes sh l H) as (s & Hp & Hi). exists s. split; [exact Hp|].
+  rewrite includes_src_eq, Hi. reflexivity.
+Qed.
+Print Assumptions C02_source_denotes.
